@@ -2,3 +2,17 @@ import TephraProps.C10
 #print axioms Tephra.Props.C10_ref_unopened
 #print axioms Tephra.Props.C10_ref_abort_first
 #print axioms Tephra.Props.C10_ref_empty
+#print axioms Tephra.Props.C10_rle_refines_stack
+#print axioms Tephra.Props.C10_rle_refines_stack_general
+#print axioms Tephra.Props.C10_rle_mismatch_first
+#print axioms Tephra.Props.C10_rle_matched
+#print axioms Tephra.Props.C10_rle_no_panic
+#print axioms Tephra.Props.C10_rle_invariant
+#print axioms Tephra.Props.C10_no_unreachable
+#print axioms Tephra.Props.C10_no_unreachable_model
+#print axioms Tephra.Props.C10_match_refines
+#print axioms Tephra.Props.C10_run_fuel_enough
+#print axioms Tephra.Props.C10_match_no_panic_no_fuel
+#print axioms Tephra.Props.C10_match_found
+#print axioms Tephra.Props.C10_bracket_positions
+#print axioms Tephra.Props.C10_bracket_ok_lexer
